@@ -419,10 +419,13 @@ type rnode struct {
 	preCrash   *consensus.VerifState // state after the last event before the crash
 	cleanCrash bool                  // the crash was not cut inside an event
 	downUntil  time.Time
+	lastRedo   time.Time
+	redoCur    int
+	redoN      map[int64]int
 }
 
 func newRnode(nw *netw, idx int) *rnode {
-	r := &rnode{net: nw, idx: idx, rec: &recorder{}, wals: map[string]*walTrack{}, t: &quietT{}, hist: map[int64]*nodeHist{}, fin: map[int64]bool{}, traceH: 1, down: true}
+	r := &rnode{net: nw, idx: idx, rec: &recorder{}, wals: map[string]*walTrack{}, t: &quietT{}, hist: map[int64]*nodeHist{}, fin: map[int64]bool{}, redoN: map[int64]int{}, traceH: 1, down: true}
 	r.nd = test.NewNode(r.t, test.UseGenesis(nw.genesis), test.UseWallet(nw.wallets[idx]))
 	r.nd.Chain.Logger().SetLevel(log.PanicLevel)
 	r.chain = &chainW{Chain: r.nd.Chain}
